@@ -68,6 +68,13 @@ def _menu():
     m.append(('create annotation note', lambda s: K.create_annotation(s, ANNO)))
     m.append(('rename annotation note to memo', lambda s: K.rename_annotation(s, ANNO, ANNO2)))
     m.append(('drop annotation note', lambda s: K.drop_annotation(s, ANNO)))
+    # (appended last so that the indexes of the commands above stay what they were)
+    for i, t in enumerate(TYPES):
+        others = [x for j, x in enumerate(TYPES) if j != i]
+        m.append((f'alter {t} extending {others[1]}, {others[0]}',
+                  lambda s, t=t, o=others: K.rebase_type(s, t, [o[1], o[0]])))
+        m.append((f'create {t} extending {others[1]}, {others[0]}',
+                  lambda s, t=t, o=others: K.create_type(s, t, bases=(o[1], o[0]))))
     return m
 
 
@@ -90,7 +97,10 @@ RECIPES[4] = ['create default::T1', 'create default::T2', 'create default::T0 ex
 RECIPES[5] = ['create default::T0', 'create default::T1 extending default::T0', 'create property default::T0.p -> str',
               'create annotation note', 'annotate default::T0']
 RECIPES[3] = RECIPES[3]
-MIG_RECIPES = (0, 1, 4, 5, 2, 3)      # the quick tier uses the first four
+# the bases of recipe 4's T0 in the other order
+RECIPES[6] = ['create default::T1', 'create default::T2', 'create default::T0 extending default::T2, default::T1',
+              'create property default::T1.p -> str']
+MIG_RECIPES = (0, 1, 4, 6, 5, 2, 3)      # the quick tier uses the first four
 _LABEL = {label: i for i, (label, _f) in enumerate(MENU)}
 
 
